@@ -406,6 +406,19 @@ static void value_family(void)
             vcarrier_begin((k + d + sgn) & 1); vf_b_int(&VD, v); vcarrier_end(lab);
         }
     }
+    /* sparse byte patterns far from every power of two (each byte 0x00 or a fill), as integer and as double */
+    {
+        static const uint8_t fills[] = { 0x01, 0x5a, 0x80, 0xff };
+        for (int f = 0; f < 4; f++)
+            for (int mask = 1; mask < 256; mask += (vf_g.thorough ? 1 : 2)) {
+                if (!take()) continue;
+                uint64_t u = 0;
+                for (int b = 0; b < 8; b++) if (mask & (1 << b)) u |= (uint64_t) fills[f] << (8 * b);
+                snprintf(lab, sizeof lab, "sparse pattern %016llx as integer / double", (unsigned long long) u);
+                vcarrier_begin(mask & 1); vf_b_int(&VD, (int64_t) u); vcarrier_end(lab);
+                if (f == 1 || vf_g.thorough) { vcarrier_begin(~mask & 1); vf_b_dbits(&VD, u); vcarrier_end(lab); }
+            }
+    }
     /* doubles: top 16 bits (sign, exponent, 4 mantissa bits) in steps, x 2 low patterns; C13 explores every capacity of renderings of up to 317 characters */
     unsigned step = vf_g.thorough ? 8 : 128;
     static const uint64_t low[] = { 0, 0x0000923456789abcULL };
